@@ -17,6 +17,11 @@ CONSTANTS
   BatchSizes = {}
   UnstashNs = {}
   HandlerIds = {}
+  Kinds = {}
+  Keys = {1}
+  SrcOpts = {}
+  MaxBatch = 3
+  Errnos = {}
   Targets = {"A", "B"}
   AutoVals = {TRUE}
   Senders = {"A"}
